@@ -68,6 +68,32 @@ class Setup:
             self.sendp = {1: p}
             self.recvp = p
             self.nlanes = 1
+        elif kind == 'sharedbuf':
+            # a device port in the style of docs/ports/custom.rst whose _send and _receive work
+            # on one plain buffer in several steps: "the calls to _receive() and _send() are
+            # protected by a lock. As a result all send and receive will be thread safe"
+            class BufPort(mp.BaseIOPort):
+                def _open(self, **kw):
+                    self.buf = []
+
+                def _send(self, msg):
+                    S._announce('wire')
+                    cur = self.buf
+                    S._announce('wire')
+                    self.buf = cur + list(msg.bytes())
+
+                def _receive(self, block=True):
+                    S._announce('wire')
+                    data = self.buf
+                    S._announce('wire')
+                    self.buf = []
+                    for b in data:
+                        self._parser.feed_byte(b)
+            p = BufPort('buf')
+            self.q = S.instrument(p)
+            self.sendp = {1: p}
+            self.recvp = p
+            self.nlanes = 1
         elif kind == 'faultydev':
             # a device whose first write fails (the cable was pulled): send() raises OSError,
             # everything else must go on working
